@@ -51,7 +51,11 @@ func (s scen) String() string {
 	for _, t := range s.threads {
 		var p []string
 		for _, x := range t {
-			p = append(p, fmt.Sprintf("%s/pcode=%d/lic=%q", x.text, x.pcode, x.license))
+			tx := x.text
+			if len(tx) > 24 {
+				tx = fmt.Sprintf("%s...(%d bytes)", tx[:8], len(tx))
+			}
+			p = append(p, fmt.Sprintf("%s/pcode=%d/lic=%q", tx, x.pcode, x.license))
 		}
 		ts = append(ts, strings.Join(p, ";"))
 	}
@@ -314,6 +318,14 @@ func scenarios(thorough bool) []scen {
 			scen{name: nm + "/sendAndClear/1x2", queue: true, qsize: 1000, clear: true, threads: [][]sendSpec{{a, b}}, dialFail: f.dial, cutAll: f.cut, deadline: f.dl},
 		)
 	}
+	// a backlog drained by SendAndClear with one message larger than the client's 2 MiB write buffer
+	// behind and in front of small ones: frames must still arrive whole and in the order accepted
+	huge := sendSpec{pcode: 9, text: strings.Repeat("H", 2300000)}
+	out = append(out,
+		scen{name: "healthy/sendAndClear/small-huge-small", queue: true, qsize: 1000, clear: true, threads: [][]sendSpec{{a, huge, b}}},
+		scen{name: "healthy/sendAndClear/huge-small", queue: true, qsize: 1000, clear: true, threads: [][]sendSpec{{huge, a}}},
+		scen{name: "healthy/direct/small-huge-small", threads: [][]sendSpec{{a, huge, b}}},
+	)
 	return out
 }
 
